@@ -56,6 +56,10 @@ def tens2(x):
     return [[frac_str(v) for v in row] for row in x.tolist()]
 
 
+# ARPA files that are not well-formed (IOError expected) / well-formed files written differently
+ARPA_CORRUPT = ("count", "no_end", "no_data", "extra_token", "extra_number", "unlisted_order", "garbage", "dup_count")
+ARPA_VARIANTS = ("counts_reversed", "sections_reversed", "split_section", "dup_line")
+
 BITS = {"torch.uint8": 8, "torch.int16": 16, "torch.int32": 32, "torch.int64": 64}
 
 
@@ -195,7 +199,9 @@ class C06(PropertyCheck):
             "T>=3); a size stream (hundreds of n-grams, V up to 127) crossing the uint8/int16 offset boundary; "
             "an out-of-vocabulary stream (ids never in the most recent slot); a malformed stream (ValueError "
             "expected); ARPA text through every entry (file object, path, opened file) x to_base_e "
-            "(True/False/default) x ftype x token2id x logger x positional/keyword, and corrupt files (IOError). "
+            "(True/False/default) x ftype x token2id x logger x positional/keyword, files that are not well-formed "
+            "(eight kinds, one per rejection path of the reader: IOError) and well-formed files written differently "
+            "(counts / sections descending, split section, repeated line). "
             "The small complete streams come first, the random bulk last. non-trivial: order >= 2 and at least "
             "one back-off actually taken; distinct by the whole case")
     assumptions = [
@@ -249,7 +255,10 @@ class C06(PropertyCheck):
                    "ftype": rng.choice(("float", "float", "np.float64", "np.float32")),
                    "token2id": rng.random() < 0.4, "logger": rng.random() < 0.25,
                    "call": rng.choice(("keyword", "positional")),
-                   "corrupt": rng.choice((None,) * 7 + ("count", "no_end", "no_data"))}
+                   "corrupt": rng.choice((None,) * 14 + ARPA_CORRUPT),
+                   # (audit) the same table written differently: count lines / sections in descending order, a
+                   # section split in two, a line listed twice (the later one wins)
+                   "variant": rng.choice((None,) * 4 + ARPA_VARIANTS)}
         # the full grid entry x base once each, on a fixed small table
         for entry in ("fileobj", "path", "opened"):
             for base_e in (True, False, None):
@@ -259,6 +268,21 @@ class C06(PropertyCheck):
                            "numeric_tokens": False, "blank_lines": False, "base_e": base_e, "entry": entry,
                            "ftype": "float", "token2id": call == "positional", "logger": False, "call": call,
                            "corrupt": None}
+        # (audit) every rejection path and every re-ordering of the reader's line-level state machine once, with
+        # the zero back-offs written and left out, word and numeric tokens: a field too many that is not a number
+        # (float() fails, the length check rejects), a back-off on the highest order, a section for an order the
+        # counts did not announce, garbage between sections, a repeated key against an honest count
+        for implicit in (False, True):
+            for numeric in (False, True):
+                for N in (1, 2, 3):
+                    dicts = gen_table(rng, 3, 0, N, 0.5, 0.0, 0.0, max_top=6)
+                    base = {"kind": "arpa", "V": 3, "dicts": dicts, "implicit": implicit, "style": "fixed",
+                            "numeric_tokens": numeric, "blank_lines": False, "base_e": False, "entry": "fileobj",
+                            "ftype": "float", "token2id": False, "logger": False, "call": "keyword"}
+                    for corrupt in ARPA_CORRUPT:
+                        yield dict(base, corrupt=corrupt, variant=None)
+                    for variant in ARPA_VARIANTS:
+                        yield dict(base, corrupt=None, variant=variant)
         # 5. malformed tables: ValueError expected
         yield from self.malformed(rng)
         # 4. size stream: offsets cross the uint8 / int16 boundary
@@ -440,23 +464,62 @@ class C06(PropertyCheck):
             if case["style"] == "exp":
                 return ("%.5e" % f).replace("e+", "e")
             return repr(f) if f != int(f) else str(int(f))
-        items = [("some preamble 1 2", {"t": "other"}), ("\\data\\", {"t": "data"})]
-        for n, d in enumerate(dicts):
-            items.append(("ngram %d=%d" % (n + 1, len(d)), {"t": "count", "n": n + 1, "c": len(d)}))
-        items.append(("", {"t": "blank"}))
-        for n, d in enumerate(dicts):
-            items.append(("\\%d-grams:" % (n + 1), {"t": "header", "n": n + 1}))
-            for e in d:
-                text = [num(e["logp"])] + [names(t) for t in e["key"]]
-                fields = [{"s": names(t), "num": (str(t * 3 + 1) if numeric else None)} for t in e["key"]]
-                if n < N - 1 and not (case["implicit"] and Fraction(e.get("logb", "0")) == 0):
-                    text.append(num(e.get("logb", "0")))
-                    fields.append({"s": text[-1], "num": e.get("logb", "0")})
-                items.append((("\t" if case["blank_lines"] else " ").join(text),
-                              {"t": "entry", "logp": e["logp"], "fields": fields}))
-            items.append(("", {"t": "blank"}))
-        items.append(("\\end\\", {"t": "end"}))
+        def entry_item(n, e, logp=None, extra=None):
+            """One entry line of order n+1 (text for the reader, classified line for the model)."""
+            lp = e["logp"] if logp is None else logp
+            text = [num(lp)] + [names(t) for t in e["key"]]
+            fields = [{"s": names(t), "num": (str(t * 3 + 1) if numeric else None)} for t in e["key"]]
+            if n < N - 1 and not (case["implicit"] and Fraction(e.get("logb", "0")) == 0):
+                text.append(num(e.get("logb", "0")))
+                fields.append({"s": text[-1], "num": e.get("logb", "0")})
+            if extra == "token":      # one field too many that does not read as a number
+                text.append("zz")
+                fields.append({"s": "zz", "num": None})
+            elif extra == "number":   # a trailing number (a back-off weight where none is allowed)
+                text.append("0.500")
+                fields.append({"s": "0.500", "num": "1/2"})
+            return ((("\t" if case["blank_lines"] else " ").join(text)),
+                    {"t": "entry", "logp": lp, "fields": fields})
+
+        def header_item(n):
+            return ("\\%d-grams:" % (n + 1), {"t": "header", "n": n + 1})
+        blank = ("", {"t": "blank"})
         corrupt = case.get("corrupt")
+        variant = case.get("variant")
+        head = [("some preamble 1 2", {"t": "other"}), ("\\data\\", {"t": "data"})]
+        counts = [("ngram %d=%d" % (n + 1, len(d)), {"t": "count", "n": n + 1, "c": len(d)})
+                  for n, d in enumerate(dicts)]
+        sections = [[header_item(n)] + [entry_item(n, e) for e in d] + [blank] for n, d in enumerate(dicts)]
+        first = next((n for n, d in enumerate(dicts) if d), None)          # first order that lists an entry
+        # --- files that are NOT well-formed (IOError expected) beyond count / no_end / no_data below
+        if corrupt == "extra_token" and first is not None:
+            sections[first][1] = entry_item(first, dicts[first][0], extra="token")
+        elif corrupt == "extra_number" and dicts[-1]:
+            sections[-1][1] = entry_item(N - 1, dicts[-1][0], extra="number")
+        elif corrupt == "unlisted_order":
+            sections.append([header_item(N), entry_item(N, {"key": [0] * (N + 1), "logp": "-1"}), blank])
+        elif corrupt == "garbage":
+            sections[0] = sections[0] + [("some garbage here", {"t": "other"})]
+        elif corrupt == "dup_count" and first is not None:
+            sections[first].insert(1, sections[first][1])
+            t_, l_ = counts[first]
+            counts[first] = ("ngram %d=%d" % (l_["n"], l_["c"] + 1), dict(l_, c=l_["c"] + 1))
+        # --- well-formed files written differently (the same table must be read)
+        if variant == "counts_reversed":
+            counts.reverse()
+        elif variant == "sections_reversed":
+            sections.reverse()
+        elif variant == "split_section":
+            k = next((n for n, d in enumerate(dicts) if len(d) >= 2), None)
+            if k is not None:
+                sec = sections[k]
+                sections[k] = [sec[0], sec[1], blank, sec[0]] + sec[2:]
+        elif variant == "dup_line" and first is not None:
+            e0 = dicts[first][0]
+            alt = "-77/8" if Fraction(e0["logp"]) != Fraction(-77, 8) else "-75/8"
+            sections[first].insert(1, entry_item(first, e0, logp=alt))    # overwritten by the listed line
+        items = head + counts + [blank] + [it for sec in sections for it in sec]
+        items.append(("\\end\\", {"t": "end"}))
         if corrupt == "count":       # one order announces one entry more than it lists
             k = next(i for i, (_, l) in enumerate(items) if l["t"] == "count")
             l = items[k][1]
@@ -770,7 +833,7 @@ class C06(PropertyCheck):
             return ["arpa", "arpa:to_base_e=" + str(case["base_e"]), "arpa:entry=" + case.get("entry", "fileobj"),
                     "arpa:ftype=" + case.get("ftype", "float"), "arpa:token2id=" + str(bool(case.get("token2id"))),
                     "arpa:call=" + case.get("call", "keyword"), "arpa:logger=" + str(bool(case.get("logger"))),
-                    "arpa:corrupt=" + str(case.get("corrupt")),
+                    "arpa:corrupt=" + str(case.get("corrupt")), "arpa:variant=" + str(case.get("variant")),
                     "arpa:entry=%s,to_base_e=%s" % (case.get("entry", "fileobj"), case["base_e"]),
                     "arpa:implicit_backoff" if case["implicit"] else "arpa:explicit_backoff",
                     "arpa:numeric_tokens" if case["numeric_tokens"] else "arpa:word_tokens"]
@@ -803,7 +866,7 @@ class C06(PropertyCheck):
         if case["kind"] == "arpa":
             for k, v in (("entry", "fileobj"), ("ftype", "float"), ("token2id", False), ("logger", False),
                          ("call", "keyword"), ("style", "fixed"), ("numeric_tokens", False),
-                         ("blank_lines", False), ("implicit", False)):
+                         ("blank_lines", False), ("implicit", False), ("variant", None)):
                 if case.get(k) != v:
                     yield dict(case, **{k: v})
             dicts = case["dicts"]
